@@ -1,18 +1,20 @@
 """C18 — supervisor; see DESIGN.md section 6.  Proof: props/C18.v.  Tie: trace acceptance (check B)."""
 from . import supcommon as S
 from . import c18_composite as LC
+from . import c18_http as LH
 
-OCAML = S.OCAML + LC.OCAML
-GO = S.GO + LC.GO
+OCAML = S.OCAML + LC.OCAML + LH.OCAML
+GO = S.GO + LC.GO + LH.GO
 FAMILIES = "mixed,reload,state,sdsender,big,subclose,errs".split(",")
 PROP = "props/C18.v"
-PROOFS = ["proofs/SupInv.v", "proofs/SupStop.v", "proofs/SupTrig.v", "proofs/SupGate.v", "proofs/SupOnce.v", "proofs/SupReload.v", "proofs/SupCensus.v"] + [f for f in LC.PROOFS]
+PROOFS = ["proofs/SupInv.v", "proofs/SupStop.v", "proofs/SupTrig.v", "proofs/SupGate.v", "proofs/SupOnce.v", "proofs/SupReload.v", "proofs/SupCensus.v"] + [f for f in LC.PROOFS] + [f for f in LH.PROOFS]
 
 
 def run(run):
     S.run_property(run, "C18", FAMILIES, PROP, PROOFS)
     # further legs: each compares the real goroutine census of one component with its model's census
     LC.leg(run)
+    LH.leg(run)
 
 
 def replay(path):
